@@ -286,6 +286,58 @@ def r6(ctx):
         ctx.ok("no-unwrap-WriteError:none", "no Result::unwrap/expect in outstation::session", "")
 
 
+def r7(ctx):
+    """No request is swallowed by a confirm wait. During the solicited wait every fragment that needs an answer (a request of any
+    kind, a malformed one, one the transport layer could not parse) ends the wait with ConfirmAction::NewRequest (it is retained
+    and answered from idle); only link-layer traffic, nothing-yet, and confirms that do not match keep waiting. During the
+    unsolicited wait and from idle the error / non-READ arms reach a responder."""
+    prog = ctx.prog
+    ex = prog.body("OutstationSession::expect_sol_confirm")
+    sym = ctx.sym(ex)
+    cl = lambda x: mentions_call(x, r"OutstationSession::classify$")
+    rq = lambda x: mentions_call(x, r"RequestGuard::get$")
+    must_end = [("TransportRequest::Error", g_is(rq, "Error"))] + [("FragmentType::%s" % v, g_is(cl, v)) for v in ("MalformedRequest", "NewRead", "NewNonRead", "RepeatNonRead", "Broadcast")]
+    rets = list(ret_sites(ex, sym))
+    for label, pred in must_end:
+        arms = arm_edges(ctx, ex, pred)
+        if len(arms) != 1:
+            raise AnchorError("expect_sol_confirm: %s arm (%d)" % (label, len(arms)))
+        region = region_of(ex, arms[0])
+        vals = [variant_name(e) for b, si, st, e in rets if b.idx in region]
+        ctx.check(bool(vals) and all(v == "NewRequest" for v in vals), "sol-wait:%s->NewRequest" % label, "%s ends the confirm wait (%s)" % (label, vals), ex.where(arms[0].edge[1]), bad_detail="%s during a solicited confirm wait yields %s: the fragment is consumed and never answered" % (label, vals))
+    may_wait = {"ContinueWait"}
+    for b, si, st, e in rets:
+        if variant_name(e) != "ContinueWait":
+            continue
+        gs = ctx.guards_at(ex, b.idx)
+        ok = any(g.kind == "is" and rq(g.a) and g.name in ("LinkLayerMessage", "None") for g in gs) or any(g.kind == "is" and cl(g.a) and g.name in ("SolicitedConfirm", "UnsolicitedConfirm") for g in gs) or any(g.kind == "is" and g.name == "None" and mentions_call(g.a, r"RequestGuard::get$") for g in gs)
+        ctx.check(ok, "sol-wait:ContinueWait-only-for-non-requests", "ContinueWait only for link traffic / nothing / non-matching confirms", ex.where(b.idx), bad_detail="ContinueWait is returned under %s" % "; ".join(fmt_guards(gs))[:200])
+    # unsolicited wait and idle: error-bearing and non-READ arms reach a responder
+    TXR = r"OutstationSession::(write_solicited|repeat_solicited|write_error_response|handle_non_read|format_\w+|respond_with\w*)$|Response::empty_solicited$"
+    for d, labels in (("OutstationSession::wait_for_unsolicited_confirm", ("MalformedRequest", "NewNonRead", "RepeatNonRead")), ("OutstationSession::process_request_from_idle", ("MalformedRequest", "NewNonRead", "RepeatNonRead", "NewRead", "RepeatRead"))):
+        body = prog.abody(d)
+        for v in labels:
+            arms = arm_edges(ctx, body, g_is(cl, v))
+            if len(arms) != 1:
+                raise AnchorError("%s: %s arm (%d)" % (d, v, len(arms)))
+            hits = calls_in_blocks(prog, body, region_of(body, arms[0]), TXR)
+            if d.endswith("process_request_from_idle"):
+                # from idle the arm hands the response to its caller as Some(LastValidRequest), which transmits it
+                reg = region_of(body, arms[0])
+                vals = [variant_name(e) for b, si, st, e in ret_sites(body, ctx.sym(body)) if b.idx in reg]
+                ctx.check(bool(vals) and all(x == "Some" for x in vals), "answered@process_request_from_idle:%s" % v, "%s arm returns Some(LastValidRequest) (%s)" % (v, vals), body.where(arms[0].edge[1]), bad_detail="the %s arm of process_request_from_idle returns %s: nothing is transmitted" % (v, vals))
+                continue
+            ctx.check(bool(hits), "answered@%s:%s" % (d.split("::")[-1], v), "%s arm reaches a responder (%s)" % (v, sorted({short(c) for _, _, c in hits})[:2]), body.where(arms[0].edge[1]), bad_detail="the %s arm of %s builds no response" % (v, d.split("::")[-1]))
+    for d in ("OutstationSession::wait_for_unsolicited_confirm", "OutstationSession::handle_one_request_from_idle"):
+        body = prog.abody(d)
+        arms = arm_edges(ctx, body, g_is(rq, "Error")) or [g for g in ctx.gi(body).all_guards() if g.kind == "is" and g.name == "Error" and (g.enum or "").endswith("TransportRequest")]
+        if not arms:
+            raise AnchorError("%s: TransportRequest::Error arm" % d)
+        for g in arms:
+            hits = calls_in_blocks(prog, body, region_of(body, g), r"OutstationSession::write_error_response$")
+            ctx.check(bool(hits), "answered@%s:TransportRequest::Error" % d.split("::")[-1], "an unparsable fragment is answered with an error response", body.where(g.edge[1]), bad_detail="the TransportRequest::Error arm of %s answers nothing" % d.split("::")[-1])
+
+
 RULES = [
     ("C12.R1", "T8/T11", "sequence/UNS/FIR/FIN/CON provenance of every response header", r1),
     ("C12.R2", "T4", "no-response function codes and CONFIRM produce no response; all others do", r2),
@@ -293,4 +345,5 @@ RULES = [
     ("C12.R4", "T7", "per-header status accumulators are never overwritten", r4),
     ("C12.R5", "T5/T8", "transmitted slices and cursors come from the tx buffers", r5),
     ("C12.R6", "T1-link", "no WriteError unwrap on response-building paths", r6),
+    ("C12.R7", "T4/T2-region", "no request is swallowed: confirm waits end on / answer every fragment that needs a reply", r7),
 ]
